@@ -137,11 +137,14 @@ def sliding_families(P, G, tier, default_flags=False, step=1, pool=None, max_off
     """a short symbolic window slid over every offset of a few realistic multi-header messages (all options of the message
     kind symbolic unless default_flags): every byte value at every position of a long message, in its real context"""
     J = []
-    w = T(tier, 3, 4); bud = T(tier, 60, 300)
+    w = T(tier, 2, 4); bud = T(tier, 60, 300)
     for nm, kind, msg, _ in SLIDE_POOL:
         if pool and nm not in pool: continue
-        fl = F0 if default_flags else ([f for f in flags(multi_sp_req='sym', sp_before_first='sym', ignore_req='sym')] if kind == 'req'
-                                       else [f for f in flags(sp_after_name='sym', obs_fold='sym', multi_sp_resp='sym', sp_before_first='sym', ignore_resp='sym')])
+        if tier == 'quick':      # quick: the header options of the message kind; thorough: the multi-space option as well
+            fl = F0 if default_flags else (REQ_HDR_SYM if kind == 'req' else RESP_HDR_SYM)
+        else:
+            fl = F0 if default_flags else ([f for f in flags(multi_sp_req='sym', sp_before_first='sym', ignore_req='sym')] if kind == 'req'
+                                           else [f for f in flags(sp_after_name='sym', obs_fold='sym', multi_sp_resp='sym', sp_before_first='sym', ignore_resp='sym')])
         for off in range(0, (min(max_off, len(msg) - w) if max_off is not None else len(msg) - w) + 1, step):
             jb = product_job(P, f'slide-{nm}-o{off}', G, sc(kind, w, prefix=msg[:off], suffix=msg[off + w:], api='cfg', fl=fl, cap=cap), bud,
                              f'{kind} message {nm} ({len(msg)} bytes) with bytes {off}..{off + w - 1} symbolic' + ('' if default_flags else ', options symbolic'),
